@@ -375,9 +375,11 @@ class Polygon(Shape2D):
         centered = copy(self)
         centered._vertices = self._vertices - original_center
 
+        # mat rotates the normal onto the z axis, so the tensor computed in that frame
+        # is brought back to the frame of the polygon by the inverse rotation.
         inertia_tensor = np.diag([0, 0, centered.polar_moment_inertia])
         shifted_inertia_tensor = translate_inertia_tensor(
-            original_center, rotate_order2_tensor(mat, inertia_tensor), self.area
+            original_center, rotate_order2_tensor(mat.T, inertia_tensor), self.area
         )
 
         return shifted_inertia_tensor
